@@ -586,10 +586,12 @@ impl DhtNetworkManager {
             );
         }
 
+        // One more than K is fetched so that dropping the requester still leaves the K closest
         let candidate_nodes = self
-            .find_closest_nodes_local(key, DHT_CLOSEST_NODES_COUNT)
+            .find_closest_nodes_local(key, DHT_CLOSEST_NODES_COUNT + 1)
             .await;
-        let closer_nodes = Self::filter_response_nodes(candidate_nodes, requester);
+        let mut closer_nodes = Self::filter_response_nodes(candidate_nodes, requester);
+        closer_nodes.truncate(DHT_CLOSEST_NODES_COUNT);
 
         if closer_nodes.is_empty() {
             return Ok(DhtNetworkResult::GetNotFound {
